@@ -410,7 +410,7 @@ func (p *muxPair) stop() {
 var totals = []int64{0, 1, 1000, 32768, 32769, 100000, 250000, 1 << 20}
 
 func genC08(r *vh.Runner) {
-	n := r.Pick(320, 8000)
+	n := r.Pick(320, 40000)
 	for i := 0; i < n; i++ {
 		r.Case(fmt.Sprintf("stream/%d", i), map[string]any{"case": i}, func(c *vh.Case) {
 			c.Bubble(func() { streamRun(r, c, i) })
